@@ -16,7 +16,11 @@ template bodies included) and turns each method body into the ordered list of ev
 * members of type std::atomic<..> / SharedVariable<..> / SharedOptionalVariable<..> give `atomic f`;
 * calls of other methods of the same object (this->g()) are inlined;
 * a method returning a reference or pointer to a member gives `escape f` after its last `rel`
-  (the caller reads f after the lock is gone).
+  (the caller reads f after the lock is gone);
+* local ALIASES of a member are followed: a local reference / pointer variable initialised from (or a pointer
+  variable assigned) an lvalue rooted at a member of `this` (`Diagnostic & d = report_.diagnostics.front();`,
+  `p = &value_;`) makes every later use of that variable an access of the member at the position of the use
+  (so a copy made through such an alias after the guard's scope ended is an access outside the critical section).
 Constructors and destructors are not summarised (the object is not shared while they run).
 """
 import json
@@ -98,6 +102,7 @@ class Summariser:
         self.methods = methods_by_class      # class -> {name: [decl nodes]}
         self.bases = bases
         self.unclassified = []
+        self.alias = {}                      # id of a local reference / pointer variable -> member it aliases
 
     def lookup(self, cls, name):
         seen = set()
@@ -112,7 +117,28 @@ class Summariser:
             stack += self.bases.get(c, [])
         return None, None
 
+    def root_field(self, e):
+        """member of `this` at the root of an lvalue expression (x_.a.front().b, *x_, x_[i], &x_), or None"""
+        e = strip_casts(e)
+        k = e.get('kind')
+        inner = e.get('inner') or []
+        if k == 'MemberExpr':
+            if is_this_member(e) and qual(e) != '<bound member function type>':
+                return e.get('name')
+            return self.root_field(inner[0]) if inner else None
+        if k == 'CXXMemberCallExpr':
+            return self.root_field(inner[0]) if inner else None
+        if k == 'CXXOperatorCallExpr':
+            return self.root_field(inner[1]) if len(inner) > 1 else None
+        if k in ('UnaryOperator', 'ArraySubscriptExpr'):
+            return self.root_field(inner[0]) if inner else None
+        if k == 'DeclRefExpr':
+            return self.alias.get((e.get('referencedDecl') or {}).get('id'))
+        return None
+
     def summarise(self, cls, decl, depth=0):
+        if depth == 0:
+            self.alias = {}
         evs = []
         body = [c for c in decl.get('inner', []) if c.get('kind') == 'CompoundStmt']
         if not body:
@@ -175,8 +201,24 @@ class Summariser:
             else:
                 evs.append((self.classify(n, parent), f))
             return
+        if k == 'DeclRefExpr':
+            f = self.alias.get((n.get('referencedDecl') or {}).get('id'))
+            if f is not None:
+                evs.append((self.classify(n, parent), f))
+            return
         for c in n.get('inner', []) or []:
             self.walk(cls, c, n, evs, depth)
+        # after the initialiser / right-hand side has been walked: record local aliases of members
+        if k == 'VarDecl' and qual(n).rstrip().endswith(('&', '*')) and n.get('inner'):
+            f = self.root_field(n['inner'][-1])
+            if f is not None:
+                self.alias[n.get('id')] = f
+        if k == 'BinaryOperator' and n.get('opcode') == '=' and len(n.get('inner') or []) == 2:
+            lhs = strip_casts(n['inner'][0])
+            if lhs.get('kind') == 'DeclRefExpr' and qual(lhs).rstrip().endswith('*'):
+                f = self.root_field(n['inner'][1])
+                if f is not None:
+                    self.alias[(lhs.get('referencedDecl') or {}).get('id')] = f
 
     def lock_decl(self, n):
         if n.get('kind') != 'DeclStmt':
